@@ -243,12 +243,13 @@ func init() {
 			{Name: "hier", Weight: 3, Fn: c04Profile("hier")},
 			{Name: "persistent", Weight: 3, Fn: c04Profile("persistent")},
 			{Name: "decorators", Weight: 3, Fn: c04Decorators},
+			{Name: "grpc-streams", Weight: 2, Fn: c04GRPCStreams},
 		},
 		Components: map[string][]string{
-			"real": {"pkg/blobstore/local: block-device-backed allocator (use counts, shared sectors), volatile and persistent block lists, flat and hierarchical blob access, periodic syncer", "pkg/blobstore/buffer (validated reader-at buffers, CAS reader buffers, clones, background tasks)", "validation caching read buffer factory", "decorators profile: pkg/blobstore mirrored, readcaching, readfallback, sharding, replication (all strategies), demultiplexing, hierarchical instance names, existence caching, authorizing, empty blob injecting, deadline enforcing, metrics, read canarying decorators (a third of the first three assembled by NewBlobAccessFromConfiguration)"},
+			"real": {"pkg/blobstore/local: block-device-backed allocator (use counts, shared sectors), volatile and persistent block lists, flat and hierarchical blob access, periodic syncer", "pkg/blobstore/buffer (validated reader-at buffers, CAS reader buffers, clones, background tasks)", "validation caching read buffer factory", "decorators profile: pkg/blobstore mirrored, readcaching, readfallback, sharding, replication (all strategies), demultiplexing, hierarchical instance names, existence caching, authorizing, empty blob injecting, deadline enforcing, metrics, read canarying decorators (a third of the first three assembled by NewBlobAccessFromConfiguration)", "grpc-streams profile: pkg/blobstore/grpcclients CAS client and pkg/blobstore/grpcservers ByteStream/CAS servers over the simulated connection, pkg/zstd bounded pool (real) on both sides"},
 			"stub": {"data device with failing writes/reads (simdisk)", "allocation failures (recording allocator)", "state directory (simdir)", "upload sources (simsource, close counting)", "scheduling (verifsimrt)"},
 		},
-		Rule:           "a run = disk-backed store (0-2 spare blocks, validation cache on/off, flat/hierarchical, volatile/persistent) x 1-4 clients x 10-70 operations with readers held open for up to 40 scheduling steps, invalid uploads, injected allocation failures and device write/read errors; step monitors: a device write never changes bytes under an open reader, a region is never handed out while a reader/writer of an earlier incarnation is active or while the durable state file lists it; after all operations returned: every block reader and upload source closed exactly once and allocatable blocks + blocks in the list = configured blocks; non-trivial = readers were opened and blocks were released; decorators profile: a run = one of 12 decorators/composites over three model leaves x 1-3 clients x 2-9 operations (uploads from close-counting chunk/reader sources: valid, mismatching, short, long, failing; reads consumed in ten ways incl. early close, stream clones in separate goroutines, too small limits; existence checks) with injected leaf call and stream failures; after quiescence every upload source and every stream a leaf handed out has been closed exactly once",
+		Rule:           "a run = disk-backed store (0-2 spare blocks, validation cache on/off, flat/hierarchical, volatile/persistent) x 1-4 clients x 10-70 operations with readers held open for up to 40 scheduling steps, invalid uploads, injected allocation failures and device write/read errors; step monitors: a device write never changes bytes under an open reader, a region is never handed out while a reader/writer of an earlier incarnation is active or while the durable state file lists it; after all operations returned: every block reader and upload source closed exactly once and allocatable blocks + blocks in the list = configured blocks; non-trivial = readers were opened and blocks were released; decorators profile: a run = one of 12 decorators/composites over three model leaves x 1-3 clients x 2-9 operations (uploads from close-counting chunk/reader sources: valid, mismatching, short, long, failing; reads consumed in ten ways incl. early close, stream clones in separate goroutines, too small limits; existence checks) with injected leaf call and stream failures; after quiescence every upload source and every stream a leaf handed out has been closed exactly once; grpc-streams profile: the repository's CAS client against its ByteStream/CAS servers over the simulated connection (zstd on either side per run, bounded real pools of 1-2 coders), 1-3 clients x 2-9 operations with failing/mismatching upload sources, reads consumed in ten ways incl. early close, backend call/stream/commit failures; after quiescence: no server handler running, every upload source and backend stream closed exactly once, every pooled encoder/decoder given back",
 		RequiredProbes: []string{"probe_capacity_checked", "probe_region_reused", "fault_alloc_failure", "block_releases", "readers_opened"},
 	})
 }
